@@ -27,7 +27,7 @@
 (*                  from the executed code; state left for the next #SIM    *)
 (*                                                                         *)
 (* Named conventions where the documents are silent (never verdicts, see    *)
-(* SimCases!Drift): MemptrFrozenWithoutCmio, ClearResetsHardwareState,      *)
+(* SimCases!Soft and op.d): MemptrFrozenWithoutCmio, ClearResetsHardwareState,      *)
 (* OutStampedAtInstructionStart.                                            *)
 (***************************************************************************)
 EXTENDS Z80
@@ -97,12 +97,19 @@ OutsHw(h, io, i) ==
 -----------------------------------------------------------------------------
 (* Run: "simulates the execution of machine code in the internal memory     *)
 (* snapshot": from the given registers (PC = start) one instruction after    *)
-(* another until PC = stop.  ints: interrupt routines are executed (a frame  *)
-(* interrupt is accepted at an instruction boundary inside the INT window    *)
-(* when IFF = 1) or ignored.  x = [r, m, fffd, ay, log, n]; log collects     *)
-(* <<T at the start of the instruction, port, value>> of every OUT           *)
-(* (OutStampedAtInstructionStart) when cfg.log holds; n counts instructions. *)
-(* A 48K snapshot has no port hardware at all: IN reads the idle bus.        *)
+(* another until PC = stop (at least one instruction; what start = stop     *)
+(* means is left open by the documents and is not generated).  ints:        *)
+(* interrupt routines are executed (a frame interrupt is accepted at an     *)
+(* instruction boundary inside the INT window when IFF = 1) or ignored.     *)
+(* x = [r, m, fffd, ay, log, n, ok, in, done]:                              *)
+(*   log  <<T at the start of the instruction, port, value>> of every OUT   *)
+(*        (OutStampedAtInstructionStart), collected when cfg.log holds      *)
+(*   n    instructions executed                                             *)
+(*   ok   FALSE: outside the modelled domain (stop not reached within       *)
+(*        MaxChunks * ChunkLen instructions, or Aliased paging)             *)
+(*   in   an IN was executed on a 128K snapshot (reads of the AY data port  *)
+(*        are not modelled; a 48K snapshot has no port hardware at all:     *)
+(*        IN reads the idle bus and OUT goes nowhere)                       *)
 \* one instruction (plus the interrupt it may be followed by)
 Step1(x, cfg) ==
   LET s == [r |-> x.r, ov |-> View(x.m), inv |-> IF x.m.is128 THEN 255 ELSE -1,
